@@ -79,8 +79,14 @@ def rule_T1(ctx, rule="T1-tags"):
                 ctx.ob(rule, fn, "tag-value", c == mask, how="empty tag = 0xC0|0", detail="empty inline buffer tagged %s" % c)
             else:
                 d = describe(b, v)
-                ok = re.match(r"^BitOr\(\(p[12] as u8\), const:%s::MASK_1100_0000\)$" % re.escape(LB), d) is not None or re.match(r"^BitOr\(\(core::str::<impl str>::len\(p1\) as u8\), const:%s::MASK_1100_0000\)$" % re.escape(LB), d) is not None
-                ctx.ob(rule, fn, "tag-value", ok, how="tag = (len as u8) | MASK_1100_0000", detail="inline tag computed as %s" % d)
+                # evaluated for every length the tag is written for: tag(len) = 0xC0 | len, len < M
+                lenvar = "p2" if fn.endswith("::set_len") else "core::str::<impl str>::len(p1)"
+                bad = []
+                for ln_ in range(0, M):
+                    got = _ceval(b, v, None, F, 0, None, {lenvar: ln_})
+                    if got != (mask | ln_):
+                        bad.append((ln_, got))
+                ctx.ob(rule, fn, "tag-value", not bad, how="tag(len) = 0xC0 | len for every len < %d (evaluated): %s" % (M, d[:80]), detail="inline tag for len %s is %s, readers expect %#x (%d lengths differ): %s" % ((bad[0][0], bad[0][1], mask | bad[0][0], len(bad), d[:160]) if bad else ("-", "-", 0, 0, d[:160])))
     # readers: is_heap_buffer / is_static_buffer summaries, by kind
     S = Solver(F)
     for fn, kind in (("repr::Repr::is_heap_buffer", "H"), ("repr::Repr::is_static_buffer", "S")):
@@ -167,7 +173,7 @@ class _U(str):
     """an unknown machine word (named by the expression that produces it)"""
 
 
-def _ceval(body, e, byte, F, depth=0, env=None):
+def _ceval(body, e, byte, F, depth=0, env=None, binds=None):
     """value of an expression over `last_byte(self)` = byte, in the machine arithmetic of the target:
     an int, a _U token for a value that does not depend on the tag byte alone (the length word of a
     heap / static handle), or None when an operation is not modelled.  Unknown words are absorbed by
@@ -177,7 +183,11 @@ def _ceval(body, e, byte, F, depth=0, env=None):
         return None
     W = (1 << F.ptr_bits) - 1
     k = e[0]
-    E = lambda x: _ceval(body, x, byte, F, depth + 1, env)
+    E = lambda x: _ceval(body, x, byte, F, depth + 1, env, binds)
+    if binds and k in ("param", "call"):
+        dd = describe(body, e)
+        if dd in binds:
+            return binds[dd]
     if k == "param" and env is not None and e[1] in env:
         return env[e[1]]
     if k == "const":
@@ -200,8 +210,9 @@ def _ceval(body, e, byte, F, depth=0, env=None):
         if v is None or isinstance(v, _U):
             return v if v is None else _U("!" + v)
         if e[1] == "Not":
-            ty = describe(body, e[2])
-            return (v ^ 1) if v in (0, 1) and _is_bool(body, e[2]) else (~v) & W
+            if v in (0, 1) and _is_bool(body, e[2]):
+                return v ^ 1
+            return (~v) & ((1 << _width(body, e[2], F)) - 1)
         if e[1] == "Neg":
             return (-v) & W
         return None
@@ -295,6 +306,26 @@ def _ceval(body, e, byte, F, depth=0, env=None):
     if k in ("field", "deref", "ref", "index", "agg", "phi"):
         return _U(describe(body, e))
     return None
+
+
+def _width(body, e, F):
+    """bit width of an integer expression, from the nearest typed node"""
+    e = strip_refs(e)
+    bits = {"u8": 8, "i8": 8, "u16": 16, "u32": 32, "u64": 64, "usize": F.ptr_bits, "isize": F.ptr_bits}
+    if e[0] == "const":
+        return bits.get(e[1], F.ptr_bits)
+    if e[0] == "cast":
+        return bits.get(e[3], F.ptr_bits)
+    if e[0] in ("bin", "un"):
+        return _width(body, e[2], F)
+    if e[0] == "field" and e[1][0] == "bin":
+        return _width(body, e[1][2], F)
+    if e[0] in ("local", "mem", "param"):
+        return bits.get(body.local_ty(e[1]), F.ptr_bits)
+    if e[0] == "call":
+        t = body.term(e[1])
+        return bits.get(body.local_ty(t["dest"]["l"]), F.ptr_bits) if not t["dest"]["p"] else F.ptr_bits
+    return F.ptr_bits
 
 
 def _is_bool(body, e):
